@@ -467,7 +467,7 @@ impl Server {
                         self.database
                             .graph()
                             .collect(&key)
-                            .change_key(&key, &params.new_name.clone().into())
+                            .change_key(&key, &params.new_name.clone().into(), &key.parent())
                             .iter(),
                     );
 
@@ -476,7 +476,11 @@ impl Server {
                         self.database
                             .graph()
                             .collect(&affected_key)
-                            .change_key(&key, &params.new_name.clone().into())
+                            .change_key(
+                                &key,
+                                &params.new_name.clone().into(),
+                                &affected_key.parent(),
+                            )
                             .iter(),
                     );
                 });
